@@ -114,9 +114,35 @@ def numeric(ctx, depth, maxdeg=2, want_int=False):
     for o in ("abs", "min", "max", "if", "count", "numberof"):
         if o in al:
             ops.append(o)
+    if "ext" in al and not want_int:
+        ops += ["un", "un", "binx", "powg", "call"]
     op = d(st.sampled_from(ops))
     if op == "leaf":
         return leaf(ctx, want_int)
+    if op == "un":
+        name = d(st.sampled_from(EXT_UNARY))
+        a = numeric(ctx, depth - 1, 1)
+        return E(("un", name, a.t), 1, 0, False, a.nbprod, a.ops | {"un:" + name})
+    if op == "binx":
+        name = d(st.sampled_from(EXT_BINARY))
+        a, b = numeric(ctx, depth - 1, 1), numeric(ctx, depth - 1, 1)
+        return E(("bin", name, a.t, b.t), 1, 0, False, True, a.ops | b.ops | {"bin:" + name})
+    if op == "powg":
+        a = numeric(ctx, depth - 1, 1)
+        form = d(st.sampled_from(["cexp", "cbase", "var"]))
+        c = d(st.sampled_from([F(3), F(1, 2), F(-1), F(5, 2), F(4), F(0), F(-2)]))
+        if form == "cexp":
+            t = ("powc", a.t, c)
+        elif form == "cbase":
+            t = ("pow", ("num", abs(c) + F(1, 2)), a.t)
+        else:
+            t = ("pow", a.t, numeric(ctx, 0, 1).t)
+        return E(t, 1, 0, False, True, a.ops | {"pow:" + form})
+    if op == "call":
+        args = [numeric(ctx, depth - 1, 1).t for _ in range(d(st.integers(0, 2)))]
+        if d(st.booleans()):
+            args.append(("str", d(st.sampled_from(["abc", "", "x y"]))))
+        return E(("call", 0, args), 1, 0, False, True, {"call"})
     if op in ("add", "sub"):
         a = numeric(ctx, depth - 1, maxdeg, want_int)
         b = numeric(ctx, depth - 1, maxdeg, want_int)
@@ -204,6 +230,8 @@ def logical(ctx, depth):
         for o in ("iff", "forall", "exists", "impl", "lcount", "alldiff"):
             if o in al:
                 ops.append(o)
+        if "ext" in al:
+            ops.append("nalldiff")
     op = d(st.sampled_from(ops))
     if op == "lconst":
         return E(("lconst", d(st.integers(0, 1))), 0, 0, True, False, {"lconst"})
@@ -241,6 +269,9 @@ def logical(ctx, depth):
             k = const_e(d(st.integers(0, n)))
         return E(("lcount", kind, k.t, ("count", [l.t for l in ls])), 0, 0, True, k.nbprod or any(l.nbprod for l in ls),
                  k.ops | frozenset().union(*[l.ops for l in ls]) | {kind})
+    if op == "nalldiff":
+        xs = [numeric(ctx, depth - 1, 1, True) for _ in range(d(st.integers(2, 3)))]
+        return E(("nalldiff", [x.t for x in xs]), 0, 0, True, True, {"nalldiff"})
     if op == "alldiff":
         n = d(st.integers(2, 3))
         xs = [numeric(ctx, depth - 1, 1, True) for _ in range(n)]
@@ -248,6 +279,9 @@ def logical(ctx, depth):
     raise AssertionError(op)
 
 
+EXT_UNARY = ["floor", "ceil", "tanh", "tan", "sqrt", "sinh", "sin", "log10", "log", "exp", "cosh", "cos", "atanh", "atan", "asinh",
+             "asin", "acosh", "acos"]
+EXT_BINARY = ["mod", "less", "atan2", "intdiv", "precision", "round", "trunc"]
 FULL_EXACT = frozenset(["div", "pl", "mul", "abs", "min", "max", "if", "count", "numberof", "iff", "forall", "exists", "impl",
                         "lcount", "alldiff", "quadcmp"])
 
@@ -258,7 +292,11 @@ def models(draw, max_vars=4, allow=FULL_EXACT, max_cons=3, max_lcons=2, with_obj
     nv = draw(st.integers(1, max_vars))
     vars_ = []
     for _ in range(nv):
-        if draw(st.integers(0, 9)) < 6:
+        if "ext" in allow and draw(st.integers(0, 5)) == 0:
+            lb, ub, it = draw(st.sampled_from([(-nl.INF, nl.INF, False), (F(0), nl.INF, False), (-nl.INF, F(3), True), (F(0), nl.INF, True),
+                                               (F(-10**9), F(10**9), True), (F(1), F(0), False)]))
+            vars_.append(dict(lb=lb, ub=ub, int=it))
+        elif draw(st.integers(0, 9)) < 6:
             lb, ub = draw(st.sampled_from(INT_DOMAINS))
             vars_.append(dict(lb=F(lb), ub=F(ub), int=True))
         else:
@@ -266,6 +304,8 @@ def models(draw, max_vars=4, allow=FULL_EXACT, max_cons=3, max_lcons=2, with_obj
             vars_.append(dict(lb=lb, ub=ub, int=False))
     m = nl.Model()
     m.vars = vars_
+    if "ext" in allow:
+        m.funcs = [dict(name="myfunc", nargs=-1, symbolic=True)]
     ctx = Ctx(draw, vars_, [], allow, budget)
     info = dict(ops=set(), nbprod=False)
 
